@@ -2,6 +2,7 @@
 Data file operations and readers/writers for the Python Iceberg implementation
 """
 
+import json
 import os
 import tempfile
 from typing import TYPE_CHECKING, Any, Dict, Iterator, List, Optional, Tuple, Union
@@ -339,7 +340,7 @@ class DataFileManager:
     def __init__(self, file_manager: "FileManager", storage: "StorageBackend"):
         self.file_manager = file_manager
         self.storage = storage
-        self._arrow_schema_cache: Dict[int, pa.Schema] = {}
+        self._arrow_schema_cache: Dict[Tuple[int, str], pa.Schema] = {}
         self._pyarrow_fs = self._get_arrow_filesystem()
 
     def _get_arrow_filesystem(self) -> Optional[Any]:
@@ -443,8 +444,18 @@ class DataFileManager:
 
     def create_arrow_schema(self, iceberg_schema: Schema) -> pa.Schema:
         """Convert Iceberg schema to PyArrow schema"""
-        if iceberg_schema.schema_id in self._arrow_schema_cache:
-            return self._arrow_schema_cache[iceberg_schema.schema_id]
+        # Keyed by the schema's CONTENT, not by schema_id alone: two different
+        # schemas can carry the same id (appends passing their own schema to a
+        # table without a persisted one; a schema passed before the table was
+        # created with another). Converting a batch with an earlier schema's
+        # cached Arrow schema silently dropped its fields, or wrote a file that
+        # differs from the table's persisted schema.
+        cache_key = (
+            iceberg_schema.schema_id,
+            json.dumps(iceberg_schema.fields, sort_keys=True, default=str),
+        )
+        if cache_key in self._arrow_schema_cache:
+            return self._arrow_schema_cache[cache_key]
 
         import pyarrow as pa
 
@@ -463,7 +474,7 @@ class DataFileManager:
             fields.append(pa.field(field_name, arrow_type, nullable=is_nullable))
 
         schema = pa.schema(fields)
-        self._arrow_schema_cache[iceberg_schema.schema_id] = schema
+        self._arrow_schema_cache[cache_key] = schema
         return schema
 
     def _iceberg_type_to_arrow(self, iceberg_type: Union[str, Dict[str, Any]]) -> pa.DataType:
